@@ -356,3 +356,87 @@ def gen_scenario(rng):
                 ops.append(filler(b) if rng.random() < 0.5 else blocker(b, False))
         bodies.append(";".join(ops) if ops else "-")
     return "prog %s %s %d %s %s" % (gen_ms(rng) if rng.random() < 0.3 else "none", gen_script(rng), rng.getrandbits(32), SCN_OBJS, "|".join(bodies))
+
+
+# ---------------- C07: thread lifecycle, scopes, thread-locals ----------------
+def gen_lifecycle(rng):
+    """Programs over spawn/join (nested, any order), scoped threads, thread-locals whose destructors use other
+    thread-locals and synchronisation, thread ids.  Layout: body 0 = main; optional scope body (run inline by main,
+    once); thread bodies; the last one or two bodies are destructor bodies (leaf bodies: no spawn, no blocking)."""
+    nthreads = rng.randint(1, 4)
+    ndtor = rng.randint(1, 2)
+    has_scope = rng.random() < 0.55
+    scope_body = 1 if has_scope else None
+    first_thread = 2 if has_scope else 1
+    thread_bodies = list(range(first_thread, first_thread + nthreads))
+    dtor_bodies = list(range(first_thread + nthreads, first_thread + nthreads + ndtor))
+    nb = first_thread + nthreads + ndtor
+    objl = ["a%d" % rng.choice([0, 1, 5]), "m"]
+    keys = []
+    for _ in range(rng.randint(1, 3)):
+        keys.append(len(objl))
+        objl.append("k%d:%s" % (rng.randrange(0, 50), rng.choice([str(rng.choice(dtor_bodies)), str(rng.choice(dtor_bodies)), "-"])))
+    zobj = None
+    if has_scope:
+        zobj = len(objl)
+        objl.append("z")
+
+    def common(b):
+        r = rng.random()
+        if r < 0.4:
+            return "lw%d.%d" % (rng.choice(keys), rng.randrange(1, 9))
+        if r < 0.5:
+            return "id"
+        if r < 0.65:
+            return "yd"
+        if r < 0.8:
+            return "a0.add.%d" % rng.randrange(1, 4)
+        if r < 0.9:
+            return "lk1;%s;ul1" % rng.choice(["yd", "lw%d.1" % rng.choice(keys), "a0.ld"])
+        return "rn"
+
+    bodies = []
+    for b in range(nb):
+        ops = []
+        if b in dtor_bodies:
+            for _ in range(rng.randint(0, 3)):
+                r = rng.random()
+                ops.append("lw%d.%d" % (rng.choice(keys), rng.randrange(1, 9)) if r < 0.5 else rng.choice(["yd", "a0.add.1", "id", "a0.ld"]))
+        else:
+            handles = 0
+            joined = set()
+            cands = [j for j in thread_bodies if j > b]
+            scope_used = False
+            for _ in range(rng.randint(1, 7)):
+                acts = ["common"] * 5
+                if cands:
+                    acts += ["spawn"] * 3
+                if handles > len(joined):
+                    acts += ["join"] * 3
+                if handles:
+                    acts += ["unpark"]
+                if b == 0 and has_scope and not scope_used:
+                    acts += ["scope"] * 2
+                if rng.random() < 0.04:
+                    acts = ["park"]
+                a = rng.choice(acts)
+                if a == "spawn":
+                    ops.append(("zs%d.%d" % (zobj, rng.choice(cands))) if b == scope_body else ("sp%d" % rng.choice(cands)))
+                    handles += 1
+                elif a == "join":
+                    h = rng.choice([x for x in range(handles) if x not in joined])
+                    joined.add(h)
+                    ops.append("jn%d" % h)
+                elif a == "unpark":
+                    ops.append("uh%d" % rng.randrange(handles))
+                elif a == "scope":
+                    scope_used = True
+                    ops.append("zc%d.%d" % (zobj, scope_body))
+                elif a == "park":
+                    ops.append("pk")
+                else:
+                    ops.append(common(b))
+            if b == 0 and has_scope and not scope_used:
+                ops.append("zc%d.%d" % (zobj, scope_body))
+        bodies.append(";".join(ops) if ops else "-")
+    return "prog %s %s %d %s %s" % (gen_ms(rng) if rng.random() < 0.15 else "none", gen_script(rng), rng.getrandbits(32), ",".join(objl), "|".join(bodies))
